@@ -49,7 +49,7 @@ PROPS = {
                   "Lean 4 theorems over the engine model (atomicity of the four entry points, order/length of execute_multi, fuel irrelevance by mutual induction) + differential correspondence through all entry points",
                   "Atomicity and ordering are theorems about App.execute/execute_multi/sudo/wasm_sudo of the Lean engine model for every state, contract behaviour and failure point; the model is tied to the real App by comparing complete transcripts (responses, trace, decoded dump) on generated trees with injected failures, and a model-free predicate checks byte-identical raw storage after every Err.",
                   _GEN + "a case is non-trivial if it contains both a failed and a successful transaction", nt="nt_wasm_err"),
-    "C02": _entry("C02", "CwMt.Props.C02", [("wasm", 8000, 300000), ("wasm-stk", 2000, 60000)], "pred_c02",
+    "C02": _entry("C02", "CwMt.Props.C02", [("wasm", 8000, 300000), ("wasm-stk", 2000, 60000), ("wasm-admin", 1500, 40000)], "pred_c02",
                   "Lean 4 theorems over the engine model (state seen after a failed / successful sub-message, caught-iff, propagation) + differential correspondence on message trees with failures and all reply_on modes",
                   "The rollback discipline of execute_submsg/process_response/reply is proved on the model for arbitrary depth and partial progress; correspondence compares final dumps and traces of generated trees where every edge has a random reply_on and random nodes fail; the model-free predicate checks that unique markers written by certainly-failing calls never persist.",
                   _GEN + "non-trivial = at least one reply handler was invoked", nt="nt_wasm"),
@@ -69,7 +69,7 @@ PROPS = {
                   "Lean 4 theorems (byte-level disjointness of contract key spaces from the C07 prefix theorems; engine-level frame: only invoked contracts' windows change, by mutual induction) + differential correspondence of all storage views",
                   "Disjointness holds for all key bytes by the prefix-code theorems; non-interference of whole executions is proved on the engine model; the four views (contract reads, raw query, dump_wasm_raw, contract_storage) and bank/registry dumps are compared with the model after contracts write adversarial keys.",
                   "contracts created from the same and different codes write keys crafted to look like other modules' raw prefixes (bank balances, contract registry, wasm namespace, empty key, 00/ff); after every transaction dump_wasm_raw, contract_storage().range, WasmQuery::Raw, smart-query range and contract_data of every contract plus bank balances are observed; slice wasm-legacy repeats this on an App with a permissive Api and a custom AddressGenerator handing out contract0..contract12, so that one address is a strict prefix of another and keys spell the tail of the longer sibling"),
-    "C10": _entry("C10", "CwMt.Props.C10", [("wasm", 8000, 300000), ("wasm-stk", 2500, 60000)], "pred_c10",
+    "C10": _entry("C10", "CwMt.Props.C10", [("wasm", 8000, 300000), ("wasm-stk", 2500, 60000), ("wasm-admin", 1500, 40000)], "pred_c10",
                   "Lean 4 theorems (query has no state output by type; the snapshot a contract gets is the enclosing transaction's current state) + differential correspondence of query answers recorded mid-transaction, each App query issued twice and bracketed by raw-storage hashes",
                   "Purity is a typing fact of the model and visibility is proved on the engine; contracts issue bank/raw/smart/info/code queries at random points of generated trees (after funds transfer, after completed and after caught-failed sub-messages) and their recorded answers must equal the model's.",
                   _GEN + "App-level queries are asked twice and bracketed by raw hashes", nt="nt_wasm"),
